@@ -12,7 +12,7 @@
    strings: "-" or comma-separated tokens "s<hex utf8>";  hdr: "-" or a row index.
    layout: pre1|dim|pre2|begin|items|end|trailer  with
      raw record  w,k,id,hex            (w: two-byte id form, k: continuation bytes of the length)
-     pre1        raw;raw;...  or -
+     pre1        like pre2 (no BrtWsDim at its top level)
      dim         -  or  w,k,r0,c0,r1,c1,hextail
      pre2        elements separated by ";":  R:raw   or   B:raw/raw~raw~.../w,k,hex
      begin, end  w,k,hex
@@ -166,7 +166,7 @@ let fb_of_str (s : string) : frm * coq_N list =
 let layout_of_str (s : string) : layout =
   match String.split_on_char '|' s with
   | [p1; dim; p2; bg; items; en; tr] ->
-    { l_pre1 = list_of ';' p1 raw_of_str;
+    { l_pre1 = list_of ';' p1 hrec_of_str;
       l_dim = (if dim = "-" then None else
                  match String.split_on_char ',' dim with
                  | [w; k; r0; c0; r1; c1; tl] ->
